@@ -31,6 +31,8 @@ THEOREMS = [
     "c13_bad_member_isolated",
     "c13_single_messages_unaffected",
     "c13_version_change_mid_connection",
+    "c13_new_connection_no_version",
+    "c13_rejections_reach_child_under_backpressure",
 ]
 RULE = (
     "decision: every string dddd-dd-dd (all 10^4 month/day digit pairs) of the years 2015..2035 (quick) / 1990..2199 "
@@ -45,7 +47,9 @@ RULE = (
     "ids, both deprecated aliases, ProtocolVersion.is_older / is_newer / reversed compare, the client's getters after each set, "
     "StdioTransport.set_protocol_version), format-hostile and magic version strings (soft), falsy / twin-id / nested / hostile "
     "batch members, the same batch three times, 230-member batches with a late consumer, per-request streams, closed "
-    "notification / read receivers, the child's stdin closed before a batch arrives; processor: BatchProcessor."
+    "notification / read receivers, the child's stdin closed before a batch arrives, the same client / transport object entered "
+    "again (a batch before the new handshake); backpressure: batches arriving while the child does not read its stdin and the "
+    "writer is blocked with 0 / 99 / 100 / 101 / 140 messages queued behind a 200 KB one; processor: BatchProcessor."
     "process_message_data over version sequences x data shapes x handler behaviours (returns / None / raises); "
     "non-trivial = distinct history"
 )
@@ -363,5 +367,5 @@ def extra(ctx, tier):
 
 
 def suites():
-    from . import c13_transport, c13_processor
-    return [Decision()] + c13_transport.suites() + c13_processor.suites()
+    from . import c13_transport, c13_processor, c13_backpressure
+    return [Decision()] + c13_transport.suites() + c13_processor.suites() + c13_backpressure.suites()
